@@ -11,8 +11,15 @@ CONSTANTS
   Dev_NdValIndex = FALSE
   Dev_CsIndex = FALSE
   Dev_SizeHint = FALSE
+  Dev_RsrcRecursion = FALSE
+  Dev_FirstDepth = FALSE
+  Dev_KidsDepth = FALSE
+  StackFrames = 300
+  OutlineDepthLimit = 256
+  NameTreeDepthLimit = 256
+  ChainLens = {1, 10, 100, 127, 128, 129, 130, 255, 256, 257, 258, 259, 299, 300, 301, 400}
   Emit = FALSE
-  Scen = {"deref", "links", "kids"}
-INVARIANTS PcOK Bounded RsrcDepth TotalInv
+  Scen = {"chain", "deref", "links", "kids"}
+INVARIANTS ChainOK StackOK PcOK Bounded RsrcDepth TotalInv
 PROPERTIES Terminates
 CHECK_DEADLOCK FALSE
